@@ -18,6 +18,7 @@
 #include <errno.h>
 #include <pthread.h>
 #include <sched.h>
+#include <sys/mman.h>
 #include <unistd.h>
 #include "qlibc.h"
 #include "vfc.h"
@@ -26,7 +27,7 @@
 int __real_usleep(useconds_t);
 
 enum { K_TREE, K_HASH, K_LISTTBL, K_LIST, K_QUEUE, K_STACK, K_VECTOR, K_LISTMULTI, NKINDS };
-static const char *KNAME[NKINDS] = {"qtreetbl", "qhashtbl", "qlisttbl(unique)", "qlist", "qqueue", "qstack", "qvector", "qlisttbl(multi)"};
+static const char *KNAME[NKINDS] = {"qtreetbl", "qhashtbl", "qlisttbl(unique)", "qlist", "qqueue", "qstack", "qvector", "qlisttbl(multi,inserttop)"};
 static bool is_map(int k) { return k <= K_LISTTBL; }                       /* one value per key */
 static bool is_keyed(int k) { return k <= K_LISTTBL || k == K_LISTMULTI; } /* put/get/remove/clear/walk family; K_LISTMULTI keeps every value of a key, in insertion order */
 
@@ -38,10 +39,11 @@ enum { O_PUT, O_GET, O_REMOVE, O_CLEAR, O_WALK,                       /* maps */
        O_GETMULTI,                                                        /* list table without the unique option */
        O_REVERSE, O_REMOVEAT, O_SETAT, O_RMFIRST, O_RMLAST, O_RESIZE,     /* removefirst/removelast (list, vector), resize(1 or 6) (vector) */
        /* (continued) */                                    /* list, vector (setat: vector only): reverse(), removeat(position), setat(position, value) */
+       O_LOAD,                                                            /* list tables: load() of a two-line file (keys k2, k3), appended at the bottom in file order */
        O_NEXT1, O_NEXT1ANY,                                               /* one stand-alone getnext(copy) on a fresh cursor, NOT under the caller's lock: named (list tables) / unnamed (tree: smallest key; multi list table: first entry) */
        NOPS };
 static const char *ONAME[NOPS] = {"put", "get", "remove", "clear", "locked-walk", "addfirst", "addlast", "popfirst", "poplast", "getfirst", "getlast", "toarray", "tostring", "clear",
-                                  "find_min", "find_max", "find_nearest", "addat", "getat", "popat", "getmulti", "reverse", "removeat", "setat", "removefirst", "removelast", "resize", "getnext-first", "getnext-first-any"};
+                                  "find_min", "find_max", "find_nearest", "addat", "getat", "popat", "getmulti", "reverse", "removeat", "setat", "removefirst", "removelast", "resize", "load", "getnext-first", "getnext-first-any"};
 static bool is_add(int op) { return op == O_ADDFIRST || op == O_ADDLAST || op == O_ADDAT; }
 static bool is_pop(int op) { return op == O_POPFIRST || op == O_POPLAST || op == O_POPAT; }
 static bool is_seqget(int op) { return op == O_GETFIRST || op == O_GETLAST || op == O_GETAT || op == O_NEXT1; }
@@ -74,7 +76,7 @@ static void make(ctx_t *c, int kind) {
     case K_QUEUE: c->queue = qqueue(QQUEUE_THREADSAFE); c->mutex = c->queue ? c->queue->list->qmutex : NULL; break;
     case K_STACK: c->stack = qstack(QSTACK_THREADSAFE); c->mutex = c->stack ? c->stack->list->qmutex : NULL; break;
     case K_VECTOR: c->vec = qvector(0, 8, QVECTOR_THREADSAFE); c->mutex = c->vec ? c->vec->qmutex : NULL; break;
-    case K_LISTMULTI: c->ltbl = qlisttbl(QLISTTBL_THREADSAFE | QLISTTBL_LOOKUPFORWARD); c->mutex = c->ltbl ? c->ltbl->qmutex : NULL; break;
+    case K_LISTMULTI: c->ltbl = qlisttbl(QLISTTBL_THREADSAFE | QLISTTBL_LOOKUPFORWARD | QLISTTBL_INSERTTOP);   /* new entries go to the top, load() appends at the bottom */ c->mutex = c->ltbl ? c->ltbl->qmutex : NULL; break;
     }
     if (!c->mutex) { fprintf(stderr, "h_conc: constructor failed\n"); exit(2); }
 }
@@ -90,6 +92,7 @@ static void destroy(ctx_t *c) {
 static uint64_t val_of(const void *d, size_t sz) { uint64_t v = ~0ULL; if (d && (sz == 8 || (sz == 9 && ((const char *)d)[8] == 0))) memcpy(&v, d, 8); return v; }
 #define PUT3(T_, put_, putstr_, putstrf_) do { char s9[9]; memcpy(s9, &v, 8); s9[8] = 0; int w_ = (int)((s->val >> 9) % 3); \
         r->ok = w_ == 0 ? T_->put_(T_, k, &v, 8) : w_ == 1 ? T_->putstr_(T_, k, s9) : T_->putstrf_(T_, k, "%s", s9); } while (0)
+static char LOADPATH[64]; static uint64_t LOADV[2];
 /* execute one operation on the real container */
 static void do_op(ctx_t *c, const opspec_t *s, opres_t *r) {
     memset(r, 0, sizeof *r);
@@ -125,6 +128,7 @@ static void do_op(ctx_t *c, const opspec_t *s, opres_t *r) {
         case O_GET: { size_t sz = 0; void *d = t->get(t, k, &sz, true); r->ok = d != NULL; if (d) { r->val = val_of(d, sz); free(d); } break; }
         case O_REMOVE: r->ok = t->remove(t, k) > 0; break;
         case O_CLEAR: t->clear(t); r->ok = 1; break;
+        case O_LOAD: r->ok = t->load(t, LOADPATH, '=', false) == 2; break;
         case O_NEXT1: { qlisttbl_obj_t o; memset(&o, 0, sizeof o); r->ok = t->getnext(t, &o, k, true);
             if (r->ok) { r->keys[0] = o.name ? (uint64_t)kid(o.name) : 99; r->val = val_of(o.data, o.size); free(o.name); free(o.data); } break; }
         case O_WALK: { qlisttbl_obj_t o; memset(&o, 0, sizeof o); t->lock(t);
@@ -137,6 +141,7 @@ static void do_op(ctx_t *c, const opspec_t *s, opres_t *r) {
         case O_GET: { size_t sz = 0; void *d = t->get(t, k, &sz, true); r->ok = d != NULL; if (d) { r->val = val_of(d, sz); free(d); } break; }
         case O_REMOVE: r->ok = t->remove(t, k) > 0; break;
         case O_CLEAR: t->clear(t); r->ok = 1; break;
+        case O_LOAD: r->ok = t->load(t, LOADPATH, '=', false) == 2; break;
         case O_NEXT1: case O_NEXT1ANY: { qlisttbl_obj_t o; memset(&o, 0, sizeof o); r->ok = t->getnext(t, &o, s->op == O_NEXT1 ? k : NULL, true);
             if (r->ok) { r->keys[0] = o.name ? (uint64_t)kid(o.name) : 99; r->val = val_of(o.data, o.size); free(o.name); free(o.data); } break; }
         case O_GETMULTI: { size_t n = 0; qlisttbl_data_t *a = t->getmulti(t, k, true, &n); r->ok = 1;
@@ -215,7 +220,8 @@ static bool model_apply(int kind, model_t *m, const hop_t *h) {
     const opspec_t *s = &h->s; const opres_t *r = &h->r;
     if (kind == K_LISTMULTI) {       /* ordered multimap: entries in insertion order, lookups from the first entry */
         switch (s->op) {
-        case O_PUT: if (m->n < MAXSNAP * 2) { m->seq[m->n] = s->val; m->skey[m->n] = (unsigned char)s->key; m->n++; } return r->ok == 1;
+        case O_PUT: if (m->n < MAXSNAP * 2) { memmove(&m->seq[1], &m->seq[0], (size_t)m->n * 8); memmove(&m->skey[1], &m->skey[0], (size_t)m->n); m->seq[0] = s->val; m->skey[0] = (unsigned char)s->key; m->n++; } return r->ok == 1;
+        case O_LOAD: for (int j = 0; j < 2 && m->n < MAXSNAP * 2; j++) { m->seq[m->n] = LOADV[j]; m->skey[m->n] = (unsigned char)(2 + j); m->n++; } return r->ok == 1;
         case O_GET: { for (int i = 0; i < m->n; i++) if (m->skey[i] == s->key) return r->ok && r->val == m->seq[i]; return !r->ok; }
         case O_REMOVE: { int w = 0, had = 0; for (int i = 0; i < m->n; i++) { if (m->skey[i] == s->key) { had = 1; continue; } m->seq[w] = m->seq[i]; m->skey[w] = m->skey[i]; w++; } m->n = w; if (r->ok == -1) return true; return (r->ok != 0) == (had != 0); }
         case O_CLEAR: m->n = 0; return true;
@@ -236,6 +242,7 @@ static bool model_apply(int kind, model_t *m, const hop_t *h) {
             if (r->n != cnt) return false;
             for (int i = 0; i < r->n; i++) { if (r->keys[i] >= NKEYS || m->map[r->keys[i]] != r->snap[i]) return false; for (int j = 0; j < i; j++) if (r->keys[j] == r->keys[i]) return false; }
             return true; }
+        case O_LOAD: m->map[2] = LOADV[0]; m->map[3] = LOADV[1]; return r->ok == 1;
         case O_NEXT1: return m->map[s->key] ? (r->ok && (int)r->keys[0] == s->key && r->val == m->map[s->key]) : !r->ok;
         case O_FINDMIN: case O_FINDMAX: { int f = -1; for (int k = 0; k < NKEYS; k++) if (m->map[k]) { f = k; if (s->op == O_FINDMIN) break; }
             return f < 0 ? !r->ok : (r->ok && (int)r->keys[0] == f); }
@@ -445,16 +452,16 @@ static int run_execution(program_t *pg, model_t *init, int *total_ops) {
 }
 
 static const int MAPOPS[] = {O_PUT, O_PUT, O_GET, O_REMOVE, O_REMOVE, O_CLEAR, O_WALK};
-static const int MULTIOPS[] = {O_PUT, O_PUT, O_PUT, O_GET, O_REMOVE, O_CLEAR, O_WALK, O_GETMULTI, O_GETMULTI, O_NEXT1, O_NEXT1ANY, O_REMOVE};
-static const int LTBLOPS[] = {O_PUT, O_PUT, O_GET, O_REMOVE, O_REMOVE, O_CLEAR, O_WALK, O_NEXT1, O_NEXT1, O_PUT};
+static const int MULTIOPS[] = {O_PUT, O_PUT, O_PUT, O_GET, O_REMOVE, O_CLEAR, O_WALK, O_GETMULTI, O_GETMULTI, O_NEXT1, O_NEXT1ANY, O_REMOVE, O_LOAD};
+static const int LTBLOPS[] = {O_PUT, O_PUT, O_GET, O_REMOVE, O_REMOVE, O_CLEAR, O_WALK, O_NEXT1, O_NEXT1, O_PUT, O_LOAD};
 static const int TREEOPS[] = {O_PUT, O_PUT, O_GET, O_REMOVE, O_REMOVE, O_CLEAR, O_WALK, O_FINDMIN, O_FINDMAX, O_NEAREST, O_PUT, O_REMOVE};
 static const int SEQOPS_LIST[] = {O_ADDFIRST, O_ADDLAST, O_ADDLAST, O_POPFIRST, O_POPFIRST, O_POPLAST, O_GETFIRST, O_GETLAST, O_TOARRAY, O_TOSTRING, O_SEQCLEAR, O_ADDAT, O_GETAT, O_POPAT, O_NEXT1, O_REVERSE, O_REMOVEAT, O_RMFIRST, O_RMLAST};
 static const int SEQOPS_VEC[] = {O_ADDFIRST, O_ADDLAST, O_ADDLAST, O_POPFIRST, O_POPFIRST, O_POPLAST, O_GETFIRST, O_GETLAST, O_TOARRAY, O_TOARRAY, O_SEQCLEAR, O_ADDAT, O_GETAT, O_POPAT, O_NEXT1, O_REVERSE, O_REMOVEAT, O_SETAT, O_RMFIRST, O_RMLAST, O_RESIZE};
 static const int SEQOPS_QS[] = {O_ADDLAST, O_ADDLAST, O_POPFIRST, O_POPFIRST, O_GETFIRST, O_SEQCLEAR};
 static int pick_op(int kind, rng_t *r) {
     if (kind == K_TREE) return TREEOPS[rng_below(r, 12)];
-    if (kind == K_LISTMULTI) return MULTIOPS[rng_below(r, 12)];
-    if (kind == K_LISTTBL) return LTBLOPS[rng_below(r, 10)];
+    if (kind == K_LISTMULTI) return MULTIOPS[rng_below(r, 13)];
+    if (kind == K_LISTTBL) return LTBLOPS[rng_below(r, 11)];
     if (is_map(kind)) return MAPOPS[rng_below(r, 7)];
     if (kind == K_LIST) return SEQOPS_LIST[rng_below(r, 19)];
     if (kind == K_VECTOR) return SEQOPS_VEC[rng_below(r, 21)];
@@ -486,6 +493,7 @@ static void gen_program(program_t *pg, long pid, rng_t *r) {
     if (d == 6 && pg->kind == K_LIST) { pg->nthreads = 2; pg->prefill = 2; pg->nops[0] = 2; pg->nops[1] = 2; pg->ops[0][0].op = O_RMFIRST; pg->ops[0][1].op = O_RMLAST; pg->ops[1][0].op = O_TOSTRING; pg->ops[1][1].op = O_ADDFIRST; }
     if ((pg->kind == K_LIST || pg->kind == K_QUEUE || pg->kind == K_STACK) && d >= 7 && d % 4 == 3) { pg->maxsize = 2; if (pg->prefill > 2) pg->prefill = 2; }     /* a size limit: concurrent adds at the limit */
     if (d == 7 && (pg->kind == K_LIST || pg->kind == K_QUEUE || pg->kind == K_STACK)) { pg->nthreads = 3; pg->prefill = 1; pg->maxsize = 2; for (int t = 0; t < 3; t++) { pg->nops[t] = 1; pg->ops[t][0].op = O_ADDLAST; } }
+    if (d == 4 && pg->kind == K_LISTMULTI) { pg->nthreads = 2; pg->prefill = 1; pg->nops[0] = 1; pg->nops[1] = 2; pg->ops[0][0].op = O_LOAD; pg->ops[1][0].op = O_PUT; pg->ops[1][0].key = 0; pg->ops[1][1].op = O_PUT; pg->ops[1][1].key = 1; }
     if (d == 2 && pg->kind == K_LISTTBL) { pg->nthreads = 2; pg->prefill = 1; pg->nops[0] = 2; pg->nops[1] = 2; pg->ops[0][0].op = O_NEXT1; pg->ops[0][1].op = O_NEXT1; pg->ops[1][0].op = O_PUT; pg->ops[1][1].op = O_PUT; for (int t = 0; t < 2; t++) for (int i = 0; i < 2; i++) pg->ops[t][i].key = 0; }
     if (d == 3 && pg->kind == K_LISTMULTI) { pg->nthreads = 2; pg->prefill = 2; pg->nops[0] = 2; pg->nops[1] = 2; pg->ops[0][0].op = O_NEXT1ANY; pg->ops[0][1].op = O_NEXT1; pg->ops[1][0].op = O_REMOVE; pg->ops[1][1].op = O_PUT; for (int t = 0; t < 2; t++) for (int i = 0; i < 2; i++) pg->ops[t][i].key = 0; }
     if (d == 2 && pg->kind == K_LIST) { pg->nthreads = 2; pg->nops[0] = 1; pg->nops[1] = 2; pg->prefill = 1; pg->ops[0][0].op = O_TOSTRING; pg->ops[1][0].op = O_POPFIRST; pg->ops[1][1].op = O_ADDLAST; }
@@ -597,6 +605,7 @@ static int check_map_history(int kind, hop_t *all, int n, hop_t *fin) {
             else if (kind == K_LISTMULTI && h.s.op == O_WALK) { if (h.r.n < 0) return -1; int w = 0; for (int j = 0; j < h.r.n; j++) if ((int)h.r.keys[j] == k) h.r.snap[w++] = h.r.snap[j]; h.r.n = w; h.s.op = O_GETMULTI; h.s.key = k; }
             else if (kind == K_LISTMULTI && h.s.op == O_GETMULTI && h.r.n < 0) return -1;
             else if (h.s.op == O_WALK) { int f = -1; for (int j = 0; j < h.r.n; j++) if ((int)h.r.keys[j] == k) f = j; h.s.op = O_GET; h.s.key = k; h.r.ok = f >= 0; h.r.val = f >= 0 ? h.r.snap[f] : 0; }
+            else if (h.s.op == O_LOAD) { if (k < 2) continue; h.s.op = O_PUT; h.s.key = k; h.s.val = LOADV[k - 2]; h.r.ok = h.r.ok ? 1 : 0; sub[m++] = h; continue; }
             else if (h.s.op == O_FINDMIN || h.s.op == O_FINDMAX || h.s.op == O_NEAREST || h.s.op == O_NEXT1ANY) continue;
             else if (h.s.op == O_NEXT1 && h.s.key == k) { if (h.r.ok && (int)h.r.keys[0] != k) { h.r.val = ~0ULL; } h.s.op = O_GET; sub[m++] = h; continue; }   /* touch every key: judged by check_ordered_lookups */
             else if (h.s.key != k) continue;
@@ -618,7 +627,8 @@ static const char *check_ordered_lookups(int kind, hop_t *all, int n) {
         vf_count("stress_ordered_lookups_checked", 1);
         if (!g->r.ok) continue;
         if (g->r.keys[0] >= NKEYS) return "an ordered lookup returned a key that was never stored (torn or freed name)";
-        bool okk = false; for (int k = 0; k < n; k++) if (all[k].s.op == O_PUT && (uint64_t)all[k].s.key == g->r.keys[0] && all[k].inv < g->resp && ((g->s.op != O_NEAREST && g->s.op != O_NEXT1 && g->s.op != O_NEXT1ANY) || all[k].s.val == g->r.val)) okk = true;
+        bool okk = false; for (int k = 0; k < n; k++) if (all[k].s.op == O_LOAD && g->r.keys[0] >= 2 && g->r.keys[0] <= 3 && all[k].inv < g->resp && (g->s.op == O_FINDMIN || g->s.op == O_FINDMAX || g->r.val == LOADV[g->r.keys[0] - 2])) okk = true;
+        for (int k = 0; k < n; k++) if (all[k].s.op == O_PUT && (uint64_t)all[k].s.key == g->r.keys[0] && all[k].inv < g->resp && ((g->s.op != O_NEAREST && g->s.op != O_NEXT1 && g->s.op != O_NEXT1ANY) || all[k].s.val == g->r.val)) okk = true;
         if (!okk) return g->s.op == O_NEAREST ? "find_nearest returned a key/value pair that no put invoked before it stored" : "find_min/max returned a key that no put invoked before it stored"; }
     return NULL;
 }
@@ -719,6 +729,9 @@ static void stress_case(long caseno) {
 int main(int argc, char **argv) {
     vf_init(argc, argv, "h_conc");
     if (strcmp(VF.prop, "C13")) { fprintf(stderr, "h_conc: unsupported property %s\n", VF.prop); return 2; }
+    { int fd = memfd_create("h_conc-load", 0); if (fd < 0) { fprintf(stderr, "h_conc: memfd_create failed\n"); return 2; }
+      static const char doc[] = "k2=LOADval1\nk3=LOADval2\n"; if (write(fd, doc, sizeof doc - 1) != (ssize_t)(sizeof doc - 1)) return 2;
+      snprintf(LOADPATH, sizeof LOADPATH, "/proc/self/fd/%d", fd); memcpy(&LOADV[0], "LOADval1", 8); memcpy(&LOADV[1], "LOADval2", 8); }
     bool stress = !strcmp(VF.mode, "stress");
     long ncases = vf_arg_long("cases", 112);
     long budget = vf_arg_long("budget", 3000);
